@@ -261,6 +261,19 @@ func c13PVSS(t *rapid.T, ev *evProp) {
 		if len(E2) != 0 {
 			violationOrKnown(t, ev, key("wrongcommit-accepted"), "%d encrypted shares verify against a polynomial with coefficient %d altered\n%s", len(E2), k, ctx)
 		}
+		// the two inputs that describe the commitments disagree.  (a) altered polynomial, original
+		// per-trustee commitments: the global challenge is bound to the polynomial, nothing verifies;
+		// (b) original polynomial, ONE per-trustee commitment altered: exactly that share is dropped
+		_, E3, _ := pvss.VerifyEncShareBatch(suite, H.P, X, sH, pub2, enc)
+		if len(E3) != 0 {
+			violationOrKnown(t, ev, key("wrongcommit-accepted"), "%d encrypted shares verify although the commitment polynomial passed to the batch has coefficient %d altered (per-trustee commitments unchanged)\n%s", len(E3), k, ctx)
+		}
+		sH3 := append([]kyber.Point(nil), sH...)
+		sH3[i] = g.Point().Add(sH[i], nonzeroPoint(t, gi, "sd").P)
+		K4, E4, _ := pvss.VerifyEncShareBatch(suite, H.P, X, sH3, pub, enc)
+		if len(E4) != n-1 || len(K4) != n-1 {
+			violationOrKnown(t, ev, key("batch-one-commitment-altered"), "with the commitment of trustee %d altered the batch keeps %d of %d shares (expected all but that one)\n%s", i, len(E4), n, ctx)
+		}
 	case "wrongH":
 		H2 := g.Point().Add(H.P, nonzeroPoint(t, gi, "hd").P)
 		if !H2.Equal(nullPoint(gi)) {
